@@ -102,6 +102,8 @@ pub const EDGE_SCALARS: &[&str] = &[
     "2021-03-14T02:30:00-05:00 New_York", "2021-11-07T01:30:00-04:00 New_York", "2021-11-07T01:30:00-05:00 New_York", "1883-11-18T12:00:00-05:00 New_York", "2021-06-07T12:00:00Z Z",
     "2021-06-07T12:00:00.123456789Z", "2021-06-07T12:00:00+00:00 UTC", "2021-06-07T12:00:00-00:00 UTC", "2021-06-07T12:00:00Z GMT", "2021-06-07T12:00:00+01:00 GMT-1", "2021-06-07T12:00:00+01:00 Etc/GMT-1",
     "0.00000000000000000000001", "0.000000000000000000000000000042kW", "0.00000000000000000000000", "0.30000000000000000000000004", "123456789012345678901234567890", "6.02214076e23", "1e25",
+    "255", "256", "65535", "65536", "2147483647", "2147483648", "-2147483649", "4294967295", "4294967296", "9007199254740992", "9007199254740994", "9223372036854775807", "9223372036854775808",
+    "-9223372036854775808", "-9223372036854775809", "18446744073709551615", "999999999999999999999", "0.1kW", "59s", "60s", "3600s", "86400s", "1min", "100%",
     "1e308", "1.7976931348623157e308", "1e309", "-1e309", "4.9e-324", "1e-400", "9007199254740993", "18446744073709551616", "0.1", "1E5", "1e+5", "1e", "1e+", "1_0", "1_", "1__0", "5.", ".5", "-", "-.5", "00012", "1kW/h%$", "1 kW",
     "1_000_000.000_1kW", "-0kW", "NaNkW", "INFkW", "-INF", "+INF", "+1", "0x10",
     "C(90,180)", "C(-90,-180)", "C(91,181)", "C(NaN,1)", "C(1)", "C(1,2,3)", "C(1e400,0)", "C(-0,-0)", "C( 1 , 2 )",
